@@ -1238,3 +1238,16 @@ func rel0(facts []rel, x, op, y string) bool {
 	}
 	return false
 }
+
+// rulePruneBundle: everything that makes prune() replay-neutral. The buffer that Check presents, saves and replays is
+// a pruned recording that was never executed in that form; it falsifies the property only if dropping the discarded
+// groups changes neither the drawn values nor the verdict. Shared by C01-R3, C05-R7 and C11-R7.
+func rulePruneBundle(r *Run) {
+	ruleC04R44(r)
+	ruleC04R45(r)
+	ruleC04R46(r)
+	ruleC04R47(r)
+	ruleC04R48(r)
+	ruleC04R5(r)
+	ruleC03R2(r)
+}
